@@ -176,6 +176,10 @@ func GenRecord(r *rng.Rand, n *spec.Node, validPct int, o FrontOpts) any {
 	}
 	// numbers standing for a bool (1 / 0) or a time (unix seconds): a JSON document carries them as float64, a Go map as int
 	if n.Kind == spec.Bool && r.Intn(8) == 0 {
+		if r.Intn(3) == 0 {
+			// a fraction is not a bool in any source ("0.5" is not a bool spelling either)
+			return []float64{0.5, 1.5, -0.5, 0.999}[r.Intn(4)]
+		}
 		return r.Intn(2)
 	}
 	if n.Kind == spec.Time && !o.Flat && r.Intn(8) == 0 {
